@@ -169,7 +169,9 @@ def defects(base):
 
         yield "duplicate-field-name", inserted(position + 1, row), position + 2
         for name, value in (("empty-field-name", ""), ("blank-field-name", "  "), ("digit-led-field-name", "1abc"), ("blank-in-field-name", "a b"), ("non-ascii-field-name", "näme"),
-                            ("keyword-field-name", "for"), ("underscore-led-field-name", "_a"), ("hyphen-in-field-name", "a-b")):
+                            ("keyword-field-name", "for"), ("underscore-led-field-name", "_a"), ("hyphen-in-field-name", "a-b"),
+                            ("fullwidth-digit-in-field-name", "total\uff11"), ("arabic-digit-in-field-name", "x\u0663y"), ("superscript-in-field-name", "m\xb2"), ("non-ascii-letter-led-field-name", "\xe4b"),
+                            ("fullwidth-letter-in-field-name", "a\uff42"), ("dotless-i-in-field-name", "\u0131d"), ("kelvin-sign-in-field-name", "\u212a1")):
             yield name, replaced(position, with_cell(1, value)), position + 1
         if position == field_rows[0]:
             # every Python keyword, also the capitalised ones (False, None, True)
